@@ -144,7 +144,12 @@ def _channel(p, which):
     d = p["d"]
     rng = np.random.default_rng([p.get("seed", 0), d, which, 23])
     kr = _kraus(p["kinds"][which] if "kinds" in p else p["kind"], d, rng)
-    return kr, _choi(kr, d)
+    j = _choi(kr, d)
+    if p.get("scale") is not None:  # the same (possibly negative) multiple of both maps: general linear maps, no longer channels
+        j = float(p["scale"]) * j
+    if p.get("real_first") and which == 0 and np.abs(j.imag).max() < 1e-15:  # a real Choi matrix held in a real-dtype array
+        j = np.ascontiguousarray(j.real)
+    return kr, j
 
 
 def _map(p):
@@ -621,6 +626,11 @@ def cf_le_inputs(p):
             raise Violation("channel_fidelity = %.6f > fidelity %.6f of the two outputs on input state #%d (d=%d, %s)" % (a, hi, n + 1, d, p["kinds"]))
 
 
+def _first(j, p):
+    """the first Choi matrix as a real-dtype array when it is real and the case asks for it (mixed dtypes in one call)"""
+    return np.ascontiguousarray(j.real) if (p.get("real_first") and np.abs(j.imag).max() < 1e-15) else j
+
+
 def _cf_tol(expected):
     """SCS tolerance for the root channel fidelity; near the value 0 the fidelity SDP turns a feasibility error e of the solver
     (eps = 1e-7) into sqrt(e) in the optimum (observed 1e-3 on orthogonal unitary channels, also with the operator-inequality form)"""
@@ -633,7 +643,7 @@ def cf_unitary_ge(p):
 
     d = p["d"]
     u, v, delta = _unitary_pair(p)
-    a = _cf(_choi([u], d), _choi([v], d))
+    a = _cf(_first(_choi([u], d), p), _choi([v], d))
     if not a >= delta - _cf_tol(delta):
         raise Violation("unitary channels: channel_fidelity = %.6f < delta = %.6f = inf over inputs of the output fidelity (d=%d, phases %s, diagonal=%s)" % (a, delta, d, p.get("phases"), bool(p.get("diagonal"))))
 
@@ -644,7 +654,7 @@ def cf_unitary_le(p):
 
     d = p["d"]
     u, v, delta = _unitary_pair(p)
-    a = _cf(_choi([u], d), _choi([v], d))
+    a = _cf(_first(_choi([u], d), p), _choi([v], d))
     if not a <= delta + _cf_tol(delta):
         raise Violation("unitary channels: channel_fidelity = %.6f > delta = %.6f (d=%d, phases %s)" % (a, delta, d, p.get("phases")))
 
@@ -776,6 +786,15 @@ def cases(tier, seed):
                 if d == 2 or thorough or kinds in (("cptp", "cptp"), ("unitary", "mixed-unitary")):
                     for pre, post in ((True, True), (True, False), (False, True)):
                         add("dd.unitary_invariant", dict(prm, pre=pre, post=post), cls)
+        # the same multiple of two channels: linear maps that are no longer channels (the bound 2 does not apply, the Choi bounds do)
+        for kinds in (("unitary", "unitary"), ("cptp", "replacer")):
+            for sc in (3.0, -1.5):
+                prm = dict(d=d, kinds=list(kinds), seed=seed, scale=sc)
+                cls = "dd/scaled-maps/%s-vs-%s/d=%d" % (kinds[0], kinds[1], d)
+                add("dd.symmetric", prm, cls)
+                add("dd.ge_choi_normalised", prm, cls)
+                add("dd.le_choi_unnormalised", prm, cls)
+                add("dd.ge_concrete_inputs", prm, cls)
         for kind in ("unitary", "mixed-unitary", "pauli", "cptp", "replacer", "amplitude-damping", "identity"):
             add("dd.equal_zero", dict(d=d, kinds=[kind, kind], seed=seed), "dd/equal-%s/d=%d" % (kind, d), True)
         for z in (0, 1):
@@ -798,6 +817,11 @@ def cases(tier, seed):
                 if d == 2 or (thorough or ph in ([0.0, 1.0, 2.5], [0.0, 0.5, 1.0]) and not diag) or (diag and ph == [0.0, 0.5, 1.0]):
                     add("cf.unitary_pair_ge", prm, "cf/" + cls)
                     add("cf.unitary_pair_le", prm, "cf/" + cls)
+        # a real first Choi matrix (the identity channel, real dtype) against a complex one
+        for ph in ugrid[d][:3]:
+            prm = dict(d=d, phases=ph, diagonal=True, u_identity=True, seed=seed, real_first=True)
+            add("cf.unitary_pair_ge", prm, "cf/unitary-pair/real-dtype-first/d=%d" % d)
+            add("cf.unitary_pair_le", prm, "cf/unitary-pair/real-dtype-first/d=%d" % d)
         for s in range(6 if thorough else 2):
             prm = dict(d=d, seed=seed + 1000 + s)
             add("dd.unitary_pair_ge", prm, "dd/unitary-pair/haar/d=%d" % d)
